@@ -207,9 +207,12 @@ fn kmeans_params<F: LF, D: Dist<F>>(c: &Case, obs: &mut Obs, k: &mut Knobs, dist
     let nc = k.pick(4);
     let init = init_method(k, obs, &x, nc.max(1), true);
     let refit_ok = !matches!(init, KMeansInit::KMeansPara);
+    let huge = k.huge_u64();
+    obs.class_if(huge.is_some(), "huge_integer_setting");
+    let refit_ok = refit_ok && huge.is_none();
     let params = KMeans::params_with(nc, SerRng::new(c.seed), dist)
         .n_runs(k.pick(3))
-        .max_n_iterations(k.pick(8) as u64)
+        .max_n_iterations(huge.unwrap_or(k.pick(8) as u64))
         .tolerance(F::of(if k.flag() { k.palette() } else { 1e-3 }))
         .init_method(init);
     obs.class(T);
@@ -288,9 +291,11 @@ fn gmm_fitted<F: LF>(c: &Case, obs: &mut Obs, k: &mut Knobs) {
 fn gmm_params<F: LF>(c: &Case, obs: &mut Obs, k: &mut Knobs) {
     const T: &str = "GmmParams";
     let x: Array2<F> = mat(&c.x);
+    let huge = k.huge_u64();
+    obs.class_if(huge.is_some(), "huge_integer_setting");
     let params = GaussianMixtureModel::params_with_rng(k.pick(3), SerRng::new(c.seed))
         .n_runs(k.pick(3) as u64)
-        .max_n_iterations([60, 0, 1][k.pick(3)])
+        .max_n_iterations(huge.unwrap_or([60, 0, 1][k.pick(3)]))
         .tolerance(F::of(if k.flag() { k.palette() } else { 1e-2 }))
         .reg_covariance(F::of(if k.flag() { k.palette() } else { 1e-2 }))
         .init_method(if k.flag() { GmmInitMethod::Random } else { GmmInitMethod::KMeans });
@@ -300,6 +305,17 @@ fn gmm_params<F: LF>(c: &Case, obs: &mut Obs, k: &mut Knobs) {
     obs.class_if(want_verdict.is_ok(), "params_valid");
     obs.class_if(want_verdict.is_err(), "params_invalid");
     let ds = DatasetBase::from(x);
+    if huge.is_some() {
+        // an iteration limit nobody can wait for: the parameter set itself is round-tripped, no fit
+        for (fmt, back) in roundtrip(obs, T, &params, STABLE) {
+            eq_check(obs, T, fmt, &params, &back);
+            must(obs, T, fmt, "check_ref-verdict", verdict(back.check_ref()) == want_verdict);
+            if let (Ok(a), Ok(b)) = (params.check_ref(), back.check_ref()) {
+                must(obs, T, fmt, "max_n_iterations", a.max_n_iterations() == b.max_n_iterations());
+            }
+        }
+        return;
+    }
     let want_fit = fit_outcome(|| params.fit(&ds));
     for (fmt, back) in roundtrip(obs, T, &params, STABLE) {
         eq_check(obs, T, fmt, &params, &back);
